@@ -218,6 +218,9 @@ func vSetEnv(ci bool, upd string, colour bool) {
 		updateVAR = "clean"
 	default:
 		updateVAR = "other"
+		if strings.HasPrefix(upd, "raw:") {
+			updateVAR = upd[4:]
+		}
 	}
 	shouldClean = updateVAR == "true" || updateVAR == "clean"
 	colors.NOCOLOR = !colour
